@@ -796,6 +796,50 @@ def settle(chk, drv, jobs):
                 chk.fail('correspondence', '%s parses to %d µs of MET, the calendar model gives %s' % (what, impl, r), dict(rep, op='undate'))
 
 
+def photon_list_file(chk, g, d):
+    """a photon list (the xpphotonlist flavour) written and read back: the time keywords of every HDU are mutually consistent and match the run
+    (TELAPSE = TSTOP − TSTART = duration, DATE-OBS / DATE-END, ONTIME = the good time, DEADC = LIVETIME / ONTIME), the columns are the in-memory ones"""
+    import simdrive
+    from astropy.io import fits
+    from ixpeobssim.srcmodel import import_roi
+    from ixpeobssim.utils.time_ import string_to_met_utc
+    roi = import_roi(simdrive.config_path('toy_point_source.py'))
+    du = int(g.integers(1, 4))
+    duration = float(g.choice([600., 1234.5]))
+    gtis = [(0., 0.3 * duration), (0.45 * duration, 0.9 * duration)]
+    rep = dict(oracle='photon-list', du=du, duration=duration)
+    chk.case(dict(op='photon-list write/read', du=du, duration=duration, gtis=gtis), nontrivial=True)
+    path, kw = simdrive.photon_list(roi, os.path.join(d, 'pl.fits'), du_id=du, seed=int(g.integers(1, 10 ** 6)), gtis=gtis, duration=duration)
+    ontime = sum(b - a for a, b in gtis)
+    with fits.open(path) as f:
+        for h in f:
+            hd = h.header
+            w = 'photon list %s header' % h.name
+            if any(k not in hd for k in ('TSTART', 'TSTOP', 'TELAPSE', 'ONTIME', 'LIVETIME', 'DEADC', 'DATE-OBS', 'DATE-END')):
+                continue
+            if hd['TSTART'] != kw['start_met'] or hd['TSTOP'] != kw['stop_met']:
+                chk.fail('impl', '%s: TSTART, TSTOP = %r, %r for a run from %r to %r' % (w, hd['TSTART'], hd['TSTOP'], kw['start_met'], kw['stop_met']), rep)
+            if abs((hd['TSTOP'] - hd['TSTART']) - hd['TELAPSE']) > 1e-6:
+                chk.fail('impl', '%s: TELAPSE = %r but TSTOP - TSTART = %r' % (w, hd['TELAPSE'], hd['TSTOP'] - hd['TSTART']), rep)
+            if abs(hd['ONTIME'] - ontime) > 1e-6:
+                chk.fail('impl', '%s: ONTIME = %r, the good time intervals add up to %r' % (w, hd['ONTIME'], ontime), rep)
+            if abs(hd['DEADC'] * hd['ONTIME'] - hd['LIVETIME']) > 1e-6 * max(1., abs(hd['LIVETIME'])):
+                chk.fail('impl', '%s: DEADC * ONTIME = %r, LIVETIME = %r' % (w, hd['DEADC'] * hd['ONTIME'], hd['LIVETIME']), rep)
+            for dk, tk in (('DATE-OBS', 'TSTART'), ('DATE-END', 'TSTOP')):
+                if abs(string_to_met_utc(hd[dk]) - hd[tk]) > 2e-6:
+                    chk.fail('impl', '%s: %s = %s is MET %.6f, %s = %.6f' % (w, dk, hd[dk], string_to_met_utc(hd[dk]), tk, hd[tk]), rep)
+        gs, ge = numpy.array(f['GTI'].data['START']), numpy.array(f['GTI'].data['STOP'])
+        if not (numpy.allclose(gs, [kw['start_met'] + a for a, b in gtis], atol=1e-6, rtol=0) and numpy.allclose(ge, [kw['start_met'] + b for a, b in gtis], atol=1e-6, rtol=0)):
+            chk.fail('impl', 'photon list: GTI extension %s / %s differs from the good time intervals of the run' % (list(gs), list(ge)), rep)
+        t = numpy.array(f['PHOTONS'].data['TIME'], dtype=float)
+        sec, usec = numpy.array(f['PHOTONS'].data['SEC'], dtype=float), numpy.array(f['PHOTONS'].data['MICROSEC'], dtype=float)
+        if len(t) and (numpy.abs(sec + 1e-6 * usec - t) > 1.5e-6).any():
+            chk.fail('impl', 'photon list: SEC + MICROSEC differ from TIME', rep)
+        ids = set(int(x) for x in f['PHOTONS'].data['SRC_ID'])
+        if not ids <= set(int(x) for x in f['ROITABLE'].data['SRCID']):
+            chk.fail('impl', 'photon list: SRC_ID %s not listed in the ROITABLE' % sorted(ids), rep)
+
+
 def explore(chk, budget=1, tag='C19', lean=True, only=None):
     g = rng(tag)
     drv, jobs = Driver(), []
@@ -819,6 +863,7 @@ def explore(chk, budget=1, tag='C19', lean=True, only=None):
             files = synthetic_event_files(chk, g, d, drv, jobs, (6 if quick else 40) * budget)
         if only in (None, 'simulated-event-file', 'binned'):
             files = simulated_event_file(chk, g, d, drv, jobs) + files
+            photon_list_file(chk, g, d)
         if only in (None, 'binned'):
             binned_products(chk, g, d, files[:(2 if quick else 6)])
     if lean:
